@@ -151,6 +151,22 @@ def compile_property(pid, workdir):
     return res
 
 
+def coqchk_property(pid, workdir):
+    """thorough tier: re-check the compiled property file and everything it depends on with the independent checker;
+    -o prints the axioms and unsafe features the whole closure relies on"""
+    rc, out, err, dt = _run(['timeout', '1500', 'coqchk', '-silent', '-o', '-Q', COQ, 'HP', '-R', workdir, '', pid],
+                            cwd=workdir, timeout=1600)
+    text = out + err
+    summary = {}
+    for key in ('Axioms', 'Constants/Inductives relying on type-in-type', 'Constants/Inductives relying on unsafe (co)fixpoints',
+                'Inductives whose positivity is assumed'):
+        m = re.search(r'\* ' + re.escape(key) + r':\s*(.*?)\n\s*\n', text, flags=re.S)
+        summary[key] = m.group(1).strip() if m else None
+    ok = rc == 0 and all(v == '<none>' for v in summary.values())
+    return dict(ok=ok, rc=rc, wall_s=round(dt, 1), summary=summary, log=text[-1500:] if not ok else '',
+                cmd='coqchk -silent -o -Q coq HP -R <workdir> "" %s' % pid)
+
+
 # ------------------------------------------------------------------------------------------------
 # running the model: generated case files evaluated by vm_compute inside coqc
 # ------------------------------------------------------------------------------------------------
